@@ -324,6 +324,9 @@ func (x *mexec) run(pos int) pr {
 			return pr{r.val, r.err, true, r.successAll}
 		}
 		x.emitAttempt(pol, pos, "OnFailure", r.val, r.err)
+		if in.FbCancelInListener && !mw.NoListeners && !in.Muted("OnFailure") {
+			x.rootCancelled = true
+		}
 		if c, cr := x.cancelledAt(pos); c {
 			return cr
 		}
